@@ -32,6 +32,13 @@ METHOD_POOL = [
     ["Base: min", "0.01 Mark: late", "Set2: 3 L/h", ""],
 ]
 
+SWEEP_METHODS = [
+    ["Base: s", "Set1: 2", "Pause: 1s", "Mark: B", "Wait: 0.5s", "Mark: C", ""],
+    ["Base: s", "Set1: 3", "Mark: A", "Nonsense: 1", "Mark: B", ""],
+    ["Base: s", "Set1: 4", "Long", "Hold: 0.5s", "Loop1", "Wait: 0.5s", ""],
+    ["Base: s", "Set1: 5", "Watch: In < 1 L/h", "    Pause: 0.5s", "    Long", "Wait: 1s", "Fail", ""],
+]
+
 CONTROLS = ["Start", "Stop", "Pause", "Unpause", "Hold", "Unhold", "Restart"]
 SNIPPETS = ["Mark: inj", "Set1: 1", "Set1: 2", "Short", "Long", "Wait: 0.2s", "Block: IB\n    Mark: ib\n    End block", "Fail",
             "Pause: 0.2s", "Hold: 0.2s"]
@@ -143,6 +150,15 @@ def build(ctx: core.Ctx):
     sched, design = runstate_paths(ctx)
     for i, steps in enumerate(sched):
         runs.append(_run(f"rs-{i}", "rs", M0, steps))
+    # Stop / Restart swept over every tick of a few fixed methods (timed pause, error pause, long command, hold): deterministic
+    n = 0
+    for method in SWEEP_METHODS:
+        for name in ("Stop", "Restart"):
+            for at in range(1, 22 if ctx.quick else 30):
+                steps = [{"req": [{"k": "control", "name": "Start"}]}] + [{} for _ in range(at)] + \
+                    [{"req": [{"k": "control", "name": name}]}] + [{} for _ in range(8)]
+                runs.append(_run(f"swp-{n}", "swp", method, steps))
+                n += 1
     nrnd = 600 if ctx.quick else 3000
     for i in range(nrnd):
         method = rnd.choice(METHOD_POOL)
@@ -230,7 +246,8 @@ def project_runstate(run):
                         "status": e["status"], "err": e["err"], "ctl": e["ctl"], "ptu": e["ptu"], "rtu": e["rtu"],
                         "btu": e["btu"], "stu": e["stu"], "block": e["block"], "out1": e["out"]["Out1"], "hw1": e["hw"]["Out1"],
                         "w1": w1, "failedNodes": failed, "mfailed": e["mstate"].get("failed", []), "scopeChange": scope,
-                        "writerExec": writer, "methodRestart": mrestart, "pstate": pstate, "edited": edited})
+                        "writerExec": writer, "methodRestart": mrestart, "pstate": pstate, "edited": edited,
+                        "stopping": bool(e.get("stopping", False))})
             if not e["started"]:
                 edited = False
             failed, w1, writer, scope, mrestart = [], [], False, False, False
@@ -250,6 +267,7 @@ def project_commands(run):
     inited = set()
     cancelled_nodes = set()
     ended_blocks = set()
+    resets, item_resets = {}, {}          # how often a line was reset; the count when a run-log item was created for it
 
     def ancestors(nid):
         out, cur, seen = [], nodes.get(nid, {}).get("parent", ""), set()
@@ -280,6 +298,7 @@ def project_commands(run):
             nodes = {n["id"]: n for n in e["nodes"]}
         elif k == "item":
             items[e["id"]] = e
+            item_resets[e["id"]] = resets.get(e["node"], 0)
         elif k in ("init", "exec", "finalize"):
             node = items.get(e["inst"], {}).get("node", "")
             out.append({"e": k, "name": e["name"], "inst": e["inst"], "t": e["t"],
@@ -298,6 +317,8 @@ def project_commands(run):
                     proceeded.add(n)
             if e["f"] == "started" and e["new"] == "False":
                 started_nodes.discard(n)
+                if e["old"] == "True" and e["ctx"] != "edit":
+                    resets[n] = resets.get(n, 0) + 1
             if e["f"] == "activated" and e["new"] == "True":
                 proceeded.add(n)
             if e["f"] == "completed" and e["new"] == "True" and e["ins"] == "Wait":
@@ -331,7 +352,8 @@ def project_commands(run):
                 kind += "-in-ended-block"            # its block has ended: nothing is left that could proceed
             out.append({"e": "req", "k": e["k"], "item": e["item"], "node": node, "offered": bool(e.get("offered")),
                         "res": "ok" if e["res"] == "ok" else "rejected", "unchanged": bool(e.get("unchanged", True)),
-                        "kind": kind, "target": e["item"], "runId": run_id, "t": e["t"]})
+                        "kind": kind, "target": e["item"], "runId": run_id, "t": e["t"],
+                        "stale": item_resets.get(e["item"], 0) < resets.get(node, 0)})
         elif k == "runStopped":
             open_ = [ln["name"] for ln in e["lines"]
                      if items.get(ln["id"], {}).get("cls") == "UodCommandNode" and ln["id"] in inited     # the command itself started
